@@ -18,7 +18,8 @@ From LV Require Import Base.Conc Base.Events Base.Lin Spec.Specs.
 From LV Require Import Model.MichaelList Proofs.MichaelListBase Proofs.MichaelListInv Proofs.MichaelListProofs
                        Proofs.MichaelListFullProofs.
 From LV Require Model.LazyList Model.IterList Proofs.LazyListDefs Proofs.IterListDefs Proofs.LazyListProofs
-                Proofs.LazyListLinProofs Proofs.IterListRefute.
+                Proofs.LazyListLinProofs Proofs.IterListRefute Proofs.MichaelListFromModel Proofs.MichaelListFromActs
+                Proofs.MichaelListFromProofs Proofs.ListQuiescent Proofs.LazyListQuiescent.
 Import ListNotations.
 Local Open Scope Z_scope.
 
@@ -116,6 +117,80 @@ Theorem C13_lazy_updates_history_linearizable :
     linearizable SetSpec (upd_hist (Conc.trace c)).
 Proof. exact LazyListLinProofs.lazy_updates_linearizable_partial'. Qed.
 Print Assumptions C13_lazy_updates_history_linearizable.
+
+(** MichaelList with ANCHORED searches (LV.Proofs.MichaelListFromModel: the list code as cds::intrusive::SplitListSet calls
+    it, every search starts at a bucket head): the same model, except that an operation [code; k; x; s] with an anchor
+    key [s < k] ([ak s = true]) first looks the node with key [s] up and then runs from that node instead of m_pHead;
+    erasing calls on anchor keys are not executed (the split-list never erases a dummy node).  For every anchor
+    predicate [ak], every number of threads, every client program and EVERY schedule: the chain from m_pHead is
+    strictly sorted, an allocated node with an anchor key is never marked, and the full history is linearizable. *)
+Theorem C13_mlistfrom_sorted_nodup :
+  forall (ak : Z -> bool) (fuel sf : nat) (ic : bool) (ths : list (list (list Z))) c,
+    Conc.reach (MichaelListFromModel.init_cfg_from ak fuel sf ic ths) c ->
+    exists L, list_nodes (Conc.shared c) L /\
+              zsorted (keys_of (Conc.shared c) L) /\
+              zsorted (keys_of (Conc.shared c) (unmarked (Conc.shared c) L)).
+Proof. exact MichaelListFromProofs.mlistfrom_sorted_nodup. Qed.
+Print Assumptions C13_mlistfrom_sorted_nodup.
+
+Theorem C13_mlistfrom_anchor_permanent :
+  forall (ak : Z -> bool) (fuel sf : nat) (ic : bool) (ths : list (list (list Z))) c,
+    Conc.reach (MichaelListFromModel.init_cfg_from ak fuel sf ic ths) c ->
+    forall n, (1 <= n <= nalloc (Conc.shared c))%nat -> ak (nkey (heap (Conc.shared c) n)) = true ->
+              nmark (heap (Conc.shared c) n) = false.
+Proof. exact MichaelListFromProofs.mlistfrom_anchor_permanent. Qed.
+Print Assumptions C13_mlistfrom_anchor_permanent.
+
+Theorem C13_mlistfrom_linearizable :
+  forall (ak : Z -> bool) (fuel sf : nat) (ic : bool) (ths : list (list (list Z))) c,
+    Conc.reach (MichaelListFromModel.init_cfg_from ak fuel sf ic ths) c ->
+    linearizable SetSpec (full_hist (Conc.trace c)).
+Proof. exact MichaelListFromProofs.mlistfrom_linearizable. Qed.
+Print Assumptions C13_mlistfrom_linearizable.
+
+(** non-vacuity of the anchored model: anchors = even keys; thread 0 inserts the anchor 10 and works from it, thread 1
+    works from it as well; the erase of the anchor is not executed; the run finishes with 10, 15, 20 in the list and
+    its full history (9 operations) is accepted by the verified checker. *)
+Example C13_mlistfrom_nonvacuous :
+  let ths := [ [[1;10;0;0]; [1;11;0;10]; [9;13;0;10]; [4;11;0;10]; [4;10;0;0]] ;
+               [[1;20;0;0]; [1;13;0;10]; [7;13;0;10]; [3;15;1;10]; [9;11;0;10]] ] in
+  let r := Conc.run 5000 0 [0;0;0;0;0;0;0;0;0;0;0;0;0;0;0;0;0;0;0;0;1;0;1;1;0;0;1]%nat
+                    (MichaelListFromModel.init_cfg_from Z.even 64 400 true ths) in
+  let g := Conc.shared (fst r) in
+  snd r = true /\
+  map (fun n => (nkey (heap g n), nmark (heap g n))) (walk g 10 (nnext (heap g 0))) = [(10, false); (15, false); (20, false)] /\
+  List.length (full_hist (Conc.trace (fst r))) = 18%nat /\ lincheck SetSpec (full_hist (Conc.trace (fst r))) = true.
+Proof. vm_compute. repeat split; reflexivity. Qed.
+
+(** QUIESCENT configurations (C18-style corollaries; LV.Proofs.ListQuiescent).  [quiescent_hist h]: every invocation
+    of the history has its response (no thread is inside an operation).  The abstract set [S] is the state of the
+    LP-annotated trace of the linearizability theorem; when the history is quiescent every operation of that trace
+    has responded.  MichaelList: the unmarked nodes of the chain from m_pHead carry exactly the keys of [S], strictly
+    increasing, each once (in every reachable configuration).  LazyList: in a quiescent configuration the traversal
+    from m_Head to m_Tail meets no marked node and yields exactly the keys of [S], strictly increasing. *)
+Theorem C13_mlist_quiescent :
+  forall (fuel sf : nat) (ic : bool) (ths : list (list (list Z))) c,
+    Conc.reach (MichaelList.init_cfg fuel sf ic ths) c ->
+    exists atr S st L,
+      lp_run lp_init atr = Some (S, st) /\ erase atr = full_hist (Conc.trace c) /\
+      list_nodes (Conc.shared c) L /\
+      zsorted (ListQuiescent.live_keys (Conc.shared c) L) /\ NoDup (ListQuiescent.live_keys (Conc.shared c) L) /\
+      (forall k, zmem k S = true <-> In k (ListQuiescent.live_keys (Conc.shared c) L)) /\
+      (ListQuiescent.quiescent_hist (full_hist (Conc.trace c)) -> forall t, st t = @Idle SetSpec).
+Proof. exact ListQuiescent.mlist_quiescent. Qed.
+Print Assumptions C13_mlist_quiescent.
+
+Theorem C13_lazy_quiescent :
+  forall (fuel sf : nat) (ic : bool) (ths : list (list (list Z))) (c : Conc.config LazyList.G LazyList.V ev),
+    Conc.reach (LazyList.init_cfg fuel sf ic ths) c ->
+    exists atr Sabs st0,
+      lp_run lp_init atr = Some (Sabs, st0) /\ erase atr = upd_hist (Conc.trace c) /\
+      LazyListDefs.increasing (LazyListDefs.lazy_keys (Conc.shared c)) /\
+      (LazyListQuiescent.quiescent_hist (upd_hist (Conc.trace c)) ->
+         (forall t, st0 t = @Idle SetSpec) /\
+         (forall k, zmem k Sabs = true <-> In k (LazyListDefs.lazy_keys (Conc.shared c)))).
+Proof. exact ListQuiescent.lazy_quiescent. Qed.
+Print Assumptions C13_lazy_quiescent.
 
 (** IterableList: the property is FALSE, for the step model LV.Model.IterList (tied to the real code by step
     correspondence) and for the real cds::intrusive::IterableList<gc::HP> (the same programs and schedule are run on
